@@ -21,7 +21,7 @@ PROPS = {
     "C01": {"scenarios": ["roundtrip.uvl"]},
     "C02": {"scenarios": ["roundtrip.json", "roundtrip.fide", "roundtrip.glencoe",
                           "roundtrip.afm", "roundtrip.uvl", "third-party", "uvl-peer"]},
-    "C04": {"scenarios": ["uvl-peer"]},
+    "C04": {"scenarios": ["uvl-peer", "uvl-peer", "roundtrip.uvl"]},
     "C05": {"scenarios": ["roundtrip.json"]},
     "C06": {"scenarios": ["roundtrip.afm"]},
     "C07": {"scenarios": ["roundtrip.fide"]},
